@@ -356,14 +356,14 @@ def shrink_program(c2m, text, d, use_ext, engine):
 def part_programs(chk, c2m, d, quick):
     import gen_c07_prog as P
     build_ext(d)
-    n = 30 if quick else 1500
+    n = 30 if quick else 300
     findings = []
     invalid = 0
     texts = []
     cp = os.path.join(vlib.VERIF, 'corpus')
     for f in sorted(os.listdir(cp)) if os.path.isdir(cp) else []:
         if f.startswith('c07_prog') and f.endswith('.c'):
-            texts.append((f, open(os.path.join(cp, f)).read(), ['corpus']))   # name = file name (contains 'corpus' marker below)
+            texts.append(('corpus:' + f, open(os.path.join(cp, f)).read(), ['corpus']))
     # a known finding of another component (mir-gen) is identified by its witness program in corpus/;
     # while it is listed, the generator does not emit that shape, the witness itself still runs
     avoid = [shape for shape, sig in KNOWN_SHAPES.items() if any(k == sig for k, _ in chk.known)]
@@ -392,12 +392,12 @@ def part_programs(chk, c2m, d, quick):
             findings.append((name, text, use_ext, bad, ref, res))
     chk.dist('B_programs', 'valid', len(texts) - invalid)
     chk.dist('B_programs', 'discarded', invalid)
-    for name, text, use_ext, bad, ref, res in [f for f in findings if 'corpus' in f[0]]:
+    for name, text, use_ext, bad, ref, res in [f for f in findings if f[0].startswith('corpus:')]:
         # corpus programs are minimal witnesses: stable signature = file name
-        chk.finding('prog:corpus:' + name, dict(kind='prog', program=text, original=text, use_ext=use_ext,
+        chk.finding('prog:' + name, dict(kind='prog', program=text, original=text, use_ext=use_ext,
                                                 engines=[b[0] for b in bad], what=[b[1] for b in bad], gcc=list(ref)),
                     'corpus program %s: c2m %s: %s' % (name, ','.join(b[0] for b in bad), bad[0][1]))
-    for name, text, use_ext, bad, ref, res in [f for f in findings if 'corpus' not in f[0]][:3]:
+    for name, text, use_ext, bad, ref, res in [f for f in findings if not f[0].startswith('corpus:')][:3]:
         small = shrink_program(c2m, text, d, use_ext, bad[0][0])
         h = hashlib.sha1(small.encode()).hexdigest()[:12]
         chk.finding('prog:' + h, dict(kind='prog', program=small, original=text, use_ext=use_ext, engines=[b[0] for b in bad],
